@@ -43,6 +43,25 @@ func (v *view) arm() chan struct{} {
 	return v.parked
 }
 
+// rearm: let the parked Get return, and park the NEXT Get issued through this view (the retry
+// of a failed compare-and-swap). Returns the channel that is closed when that next Get parks.
+func (v *view) rearm() chan struct{} {
+	v.gmu.Lock()
+	defer v.gmu.Unlock()
+	old := v.resume
+	v.armed = true
+	v.parked = make(chan struct{})
+	v.resume = make(chan struct{})
+	if old != nil {
+		select {
+		case <-old:
+		default:
+			close(old)
+		}
+	}
+	return v.parked
+}
+
 func (v *view) release() {
 	v.gmu.Lock()
 	defer v.gmu.Unlock()
@@ -95,6 +114,10 @@ func (v *view) Set(ctx context.Context, key, value string, opts *client.SetOptio
 	}
 	if opts != nil && opts.PrevExist == client.PrevNoExist && ok {
 		return nil, client.Error{Code: client.ErrorCodeNodeExist, Message: "Key already exists", Cause: key, Index: v.st.idx}
+	}
+	// PrevExist: only the existence of the key is required, its value is NOT compared
+	if opts != nil && opts.PrevExist == client.PrevExist && !ok {
+		return nil, client.Error{Code: client.ErrorCodeKeyNotFound, Message: "Key not found", Cause: key, Index: v.st.idx}
 	}
 	v.st.idx++
 	v.st.kv[key] = value
